@@ -651,12 +651,72 @@ func TestPropWRRSlowStart(t *testing.T) {
 				slowed++
 			}
 		}
+		// The factors move while a balancer lives (a host leaves its slow-start window, no host-set update in between):
+		// in half of the cases a second phase follows with factors that have grown. One in four of those starts from
+		// weights x factors that are all EQUAL when the balancer is built (10 x 1/10 next to 1 x 1, ...).
+		change := rapid.Bool().Draw(rt, "factorsChange")
+		equalAtBuild := change && rapid.IntRange(0, 3).Draw(rt, "equalAtBuild") == 0
+		if equalAtBuild {
+			b := rapid.SampledFrom([]uint32{1, 2, 5, 12}).Draw(rt, "base")
+			sum, below1, slowed = 0, false, 0
+			for i := range w {
+				k := rapid.SampledFrom([]int{0, 2, 3, 4}).Draw(rt, "eqFactor") // G = 20, 10, 5, 2
+				fs[i] = ssTable[k]
+				w[i] = b * 20 / fs[i].G
+				eff[i] = w[i] * fs[i].G
+				sum += int(eff[i])
+				if fs[i].G < 20 {
+					slowed++
+				}
+			}
+		}
+		fs2 := make([]ssFactor, len(w))
+		eff2 := make([]uint32, len(w))
+		sum2, grown := 0, 0
+		for i := range w {
+			fs2[i] = fs[i]
+			if change && fs[i].G < 20 && rapid.IntRange(0, 3).Draw(rt, "grows") > 0 {
+				for _, c := range []int{0, 0, 1, 2, 3} { // a larger factor, most often "past the window"
+					if ssTable[c].G > fs[i].G && rapid.Bool().Draw(rt, "takeFactor") {
+						fs2[i] = ssTable[c]
+						break
+					}
+				}
+				if fs2[i].G == fs[i].G {
+					fs2[i] = ssTable[0]
+				}
+				grown++
+			}
+			eff2[i] = w[i] * fs2[i].G
+			sum2 += int(eff2[i])
+		}
+		if grown == 0 {
+			change = false
+		}
 		L := sum + rapid.IntRange(0, sum).Draw(rt, "extra")
 		if L > 40000 {
 			L = 40000
 		}
+		L2 := sum2 + rapid.IntRange(0, sum2).Draw(rt, "extra2")
+		if L2 > 40000 {
+			L2 = 40000
+		}
 		viaCluster := rapid.Bool().Draw(rt, "viaCluster")
 		classes := []string{fmt.Sprintf("n=%d", len(w)), fmt.Sprintf("hosts-in-slow-start=%d", slowed)}
+		if change {
+			classes = append(classes, "factors-grow-while-the-balancer-lives")
+			if equalAtBuild && len(w) >= 2 {
+				distinct := false
+				for i := range w {
+					if eff2[i] != eff2[0] {
+						distinct = true
+					}
+				}
+				if distinct {
+					classes = append(classes, "scaled-weights-equal-when-built-and-different-later")
+				}
+			}
+		}
 		if below1 {
 			classes = append(classes, "effective-weight-below-1")
 		}
@@ -670,8 +730,16 @@ func TestPropWRRSlowStart(t *testing.T) {
 		for i := range fs {
 			labels[i] = fs[i].Label
 		}
-		ev.Case(partWRRSlow, slowed > 0, []byte(fmt.Sprint("wrr-ss|", w, labels, L)), func() interface{} {
-			return map[string]interface{}{"weights": w, "slow_start_factors": labels, "picks": L}
+		labels2 := make([]string, len(fs2))
+		for i := range fs2 {
+			labels2[i] = fs2[i].Label
+		}
+		ev.Case(partWRRSlow, slowed > 0, []byte(fmt.Sprint("wrr-ss|", w, labels, L, change, labels2, L2)), func() interface{} {
+			m := map[string]interface{}{"weights": w, "slow_start_factors": labels, "picks": L}
+			if change {
+				m["later_factors"], m["later_picks"] = labels2, L2
+			}
+			return m
 		}, classes...)
 
 		cfg := v2.Cluster{Name: lb.NextName("c06-wrrss"), ClusterType: v2.SIMPLE_CLUSTER, LbType: v2.LbType(types.WeightedRoundRobin),
@@ -730,6 +798,63 @@ func TestPropWRRSlowStart(t *testing.T) {
 			ev.Fail(rt, partWRRSlow, "wrr/window-lag-exceeds-bound:slow-start",
 				"weights %v, slow-start factors %v (effective weights in 20ths: %v), %d picks: in the window of picks [%d,%d) host %d was served %d times and host %d %d times: |n_i*w_j - n_j*w_i| = %d > w_i + w_j = %d (effective weights); window %s",
 				w, labels, eff, L, s, e, i, ni, j, nj, lag, eff[i]+eff[j], short(seq[s:e]))
+		}
+		if !change {
+			return
+		}
+		// phase 2: the factors have grown. Every entry of the scheduler carries a deadline computed from the weight its
+		// host had when it was last chosen; the new weights govern the order once every host has been chosen once
+		// more - the window bound is demanded from that pick on.
+		for i, h := range hosts {
+			ssFactors.Store(h.AddressString(), fs2[i].F)
+		}
+		pick := func(p int) int {
+			h := balancer.ChooseHost(ctx)
+			if h == nil {
+				ev.Fail(rt, partWRRSlow, "wrr/returned-no-host", "weights %v factors %v -> %v: pick %d of the second phase returned no host although all hosts are healthy", w, labels, labels2, p)
+			}
+			i, ok := index[h]
+			if !ok {
+				ev.Fail(rt, partWRRSlow, "wrr/returned-non-member", "weights %v: pick %d returned %s which is not in the host set", w, p, h.AddressString())
+			}
+			return i
+		}
+		seen, nseen := make([]bool, len(w)), 0
+		settleCap := 12*(sum2/20+1) + 4*len(w) + 64 // a host left at 1/10 of its weight waits up to 10 rounds of the others
+		settled := 0
+		for ; nseen < len(w) && settled < settleCap; settled++ {
+			if i := pick(settled); !seen[i] {
+				seen[i], nseen = true, nseen+1
+			}
+		}
+		if nseen < len(w) {
+			var missing []int
+			for i := range seen {
+				if !seen[i] {
+					missing = append(missing, i)
+				}
+			}
+			ev.Fail(rt, partWRRSlow, "wrr/host-starved-after-its-slow-start-ended",
+				"weights %v, slow-start factors %v -> %v: %d picks after the factors grew host(s) %v have still not been served (effective weights now, in 20ths: %v)", w, labels, labels2, settled, missing, eff2)
+		}
+		seq2 := make([]int, L2)
+		for p := 0; p < L2; p++ {
+			seq2[p] = pick(settled + p)
+		}
+		ev.Extra(partWRRSlow, "picks", int64(settled+L2))
+		if ok, i, j, s, e, lag := windowLag(seq2, eff2); !ok {
+			ni, nj := 0, 0
+			for _, h := range seq2[s:e] {
+				if h == i {
+					ni++
+				}
+				if h == j {
+					nj++
+				}
+			}
+			ev.Fail(rt, partWRRSlow, "wrr/window-lag-exceeds-bound:slow-start:after-the-factors-grew",
+				"weights %v, slow-start factors at build %v, later %v (effective weights in 20ths: %v -> %v); after %d settling picks, %d picks: in the window [%d,%d) host %d was served %d times and host %d %d times: |n_i*w_j - n_j*w_i| = %d > w_i + w_j = %d (effective weights); window %s",
+				w, labels, labels2, eff, eff2, settled, L2, s, e, i, ni, j, nj, lag, eff2[i]+eff2[j], short(seq2[s:e]))
 		}
 	})
 }
